@@ -79,7 +79,7 @@ def make_leaf():
 
 def transparent(n):
     c = callee(n) or ""
-    return c in (P + "require_at_least_n_tokens", P + "check_type", P + "check_expr_type")
+    return c in (P + "require_at_least_n_tokens", P + "check_type", P + "check_expr_type", P + "require_bv", P + "require_same_type", P + "add_error")
 
 
 def passthrough(n):
